@@ -136,6 +136,38 @@ def git_check_names(names, workdir):
     return bad
 
 
+def hidden_collision_probes(stg):
+    """names derived from a message must not collide - also case-insensitively - with a patch in ANY of
+    the three lists: the same subject is used again after the first patch was hidden / popped, by
+    `stg new -m`, `stg squash -m` and `stg new` + `stg edit -m`-less refresh paths"""
+    problems = []
+    runs = 0
+    for where in ("hidden", "unapplied", "applied"):
+        for second in ("Fix the thing", "fix THE thing"):
+            with repo.Scratch("c14h") as r:
+                r.init_repo()
+                r.stg(stg, ["init"])
+                r.stg(stg, ["new", "-m", "Fix the thing"])
+                first = r.stg(stg, ["series", "--noprefix", "-a"]).stdout.split()
+                if where == "hidden":
+                    r.stg(stg, ["hide", first[0]])
+                elif where == "unapplied":
+                    r.stg(stg, ["pop"])
+                for argv in (["new", "-m", second], ["new", "-m", "other one"], ["new", "-m", "more"],
+                             ["squash", "-m", second, "other-one", "more"]):
+                    p = r.stg(stg, argv)
+                    runs += 1
+                    series = [x for x in r.stg(stg, ["series", "--noprefix", "-a"]).stdout.split("\n") if x]
+                    low = [x.lower() for x in series]
+                    refs = r.git(["for-each-ref", "--format=%(refname)", "refs/patches/main/"]).stdout.split()
+                    if len(set(low)) != len(low) or len(refs) != len(series):
+                        problems.append({"argv": argv, "where": where, "exit": p.returncode, "series": series,
+                                         "refs": refs, "invalid_ref_name": series[-1] if series else "",
+                                         "why": "a derived name collides with a %s patch" % where})
+                        break
+    return runs, problems
+
+
 def end_to_end(ctx, stg, driver, upath, n):
     """`stg new -m <subject>` in scratch repositories: the created patch name equals the
     model's make + uniquify; the name is a legal ref; no panic."""
@@ -263,6 +295,9 @@ def run(ctx):
         oracle_failures.append({"why": "git check-ref-format rejects a name stg accepted/produced", "name": n})
 
     e2e_runs, e2e_problems = end_to_end(ctx, stg, driver, upath, n_e2e)
+    hc_runs, hc_problems = hidden_collision_probes(stg)
+    e2e_runs += hc_runs
+    e2e_problems += hc_problems
 
     # corpus of minimized earlier failures (runs every time)
     corpus_problems = run_corpus(stg, driver, upath)
